@@ -36,12 +36,14 @@ def dispatch1 (op : String) (j : Json) : R Json :=
   | "bpRender" => hBpRender j
   | "clump" => hClump j
   | "overlap" => hOverlap j
+  | "clumpLd" => hClumpLd j
   | "validate" => hValidate j
   | "outputVcf" => hOutputVcf j
   | "convertHap" => hConvertHap j
   | "transform" => hTransform j
   | "hapParse" => hHapParse j
   | "hapHeader" => hHapHeader j
+  | "hapVersion" => hHapVersion j
   | "hapQuery" => hHapQuery j
   | "hapSort" => hHapSort j
   | "gtStore" => hGtStore j
